@@ -296,9 +296,20 @@ func (group *Group) broadcastByRtmpMsg(msg base.RtmpMsg) {
 		}
 	} // for loop iterate rtmpSubSessionSet
 
+	// metadata and sequence headers are also delivered to sessions that are still waiting for a video key frame,
+	// otherwise the frames they receive afterwards cannot be decoded
+	isHeaderMsg := msg.Header.MsgTypeId == base.RtmpTypeIdMetadata || msg.IsVideoKeySeqHeader() || msg.IsAacSeqHeader()
+
 	// ## 转发本次数据
 	if len(group.rtmpSubSessionSet) > 0 {
-		if group.rtmpMergeWriter == nil {
+		if isHeaderMsg {
+			if group.rtmpMergeWriter != nil {
+				group.rtmpMergeWriter.Flush()
+			}
+			for session := range group.rtmpSubSessionSet {
+				_ = session.Write(lazyRtmpChunkDivider.GetEnsureWithoutSdf())
+			}
+		} else if group.rtmpMergeWriter == nil {
 			group.write2RtmpSubSessions(lazyRtmpChunkDivider.GetEnsureWithoutSdf())
 		} else {
 			group.rtmpMergeWriter.Write(lazyRtmpChunkDivider.GetEnsureWithoutSdf())
@@ -366,6 +377,8 @@ func (group *Group) broadcastByRtmpMsg(msg base.RtmpMsg) {
 			if msg.IsVideoKeyNalu() {
 				session.Write(lazyRtmpMsg2FlvTag.GetEnsureWithoutSdf())
 				session.ShouldWaitVideoKeyFrame = false
+			} else if isHeaderMsg {
+				session.Write(lazyRtmpMsg2FlvTag.GetEnsureWithoutSdf())
 			}
 		} else {
 			session.Write(lazyRtmpMsg2FlvTag.GetEnsureWithoutSdf())
